@@ -324,7 +324,7 @@ func c14ReqLine(method string, u sip.URI) (string, string) {
 // c14Whole sends the decoded headers through a whole message: parse, touch
 // every typed accessor the pipeline uses, serialise, compare with the
 // harness's own reader.
-func c14Whole(method string, ruri sip.URI, from, to sip.NameAddr, vias []string, routes []string, cseq string) (string, string) {
+func c14Whole(method string, ruri sip.URI, from, to sip.NameAddr, vias []string, routes []string, cseq string, stamp bool) (string, string) {
 	in := &sip.Msg{Start: method + " " + ruri.String() + " SIP/2.0"}
 	for _, v := range vias {
 		in.Headers = append(in.Headers, sip.Header{Name: "Via", Value: v})
@@ -349,6 +349,11 @@ func c14Whole(method string, ruri sip.URI, from, to sip.NameAddr, vias []string,
 	m.GetRoute()
 	m.GetDialog()
 	m.GetClientTransaction()
+	stamped := false
+	if stamp {
+		// what a received-enabled listener does between decoding and encoding
+		stamped = m.SetReceived("192.0.2.99", 5555) == nil
+	}
 	b, err := m.Bytes()
 	if err != nil {
 		return "", "encode error: " + err.Error()
@@ -369,6 +374,14 @@ func c14Whole(method string, ruri sip.URI, from, to sip.NameAddr, vias []string,
 	}
 	for _, name := range []string{"via", "route"} {
 		a, g := in.List(name), out.List(name)
+		if name == "via" && stamped && len(a) > 0 && len(g) == len(a) {
+			// the top entry legitimately gained / changed received (and the value of an rport it had)
+			ta, tg := c14StripStamp(a[0]), c14StripStamp(g[0])
+			if ta != tg {
+				return g[0], "top Via entry changed beyond received/rport by the stamping"
+			}
+			a, g = a[1:], g[1:]
+		}
 		if len(a) != len(g) {
 			return strings.Join(g, " | "), name + " list length differs after message re-encoding"
 		}
@@ -379,6 +392,22 @@ func c14Whole(method string, ruri sip.URI, from, to sip.NameAddr, vias []string,
 		}
 	}
 	return "", ""
+}
+
+func c14StripStamp(e string) string {
+	parts := strings.Split(e, ";")
+	out := parts[:1]
+	for _, p := range parts[1:] {
+		if strings.HasPrefix(p, "received=") {
+			continue
+		}
+		if strings.HasPrefix(p, "rport") && (len(p) == 5 || p[5] == '=') {
+			out = append(out, "rport")
+			continue
+		}
+		out = append(out, p)
+	}
+	return strings.Join(out, ";")
 }
 
 func c14Neutral(u sip.URI) sip.URI {
@@ -568,7 +597,7 @@ func TestVerifC14(t *testing.T) {
 				}
 				routes, l2 := g.JoinList(rentries)
 				cseq := fmt.Sprintf("%d %s", g.R.Intn(1<<31), meth)
-				got, why := c14Whole(meth, ru, from, to, vias, routes, cseq)
+				got, why := c14Whole(meth, ru, from, to, vias, routes, cseq, g.R.Intn(2) == 0)
 				sigs.eval("msg:" + s1 + "/" + l1 + "/" + l2)
 				if why != "" {
 					run.Violation("message: "+why, c14Fail{Kind: "message", Input: fmt.Sprintf("%s %s | From: %s | To: %s | Via: %v | Route: %v", meth, ru, from, to, vias, routes), Got: got, Reason: why})
